@@ -27,9 +27,27 @@ def ctx(k):
     yield k
 def deco(f):
     return f
+class Wild(object):
+    # a matcher object, equal to everything (like unittest.mock.ANY)
+    def __init__(self, k):
+        self.k = k
+    def __eq__(self, other):
+        return True
+    def __ne__(self, other):
+        return False
+    def __repr__(self):
+        return 'Wild(%d)' % self.k
+class Arr(list):
+    # element-wise comparison whose result has no truth value (the numpy convention)
+    def __eq__(self, other):
+        return Arr([True for _ in self])
+    def __ne__(self, other):
+        return Arr([False for _ in self])
+    def __bool__(self):
+        raise ValueError('the truth value of an Arr is ambiguous')
 '''
 
-KINDS = ['assign', 'print', 'print2', 'expr', 'printexpr', 'none', 'multi', 'compound', 'def', 'semicolon']
+KINDS = ['assign', 'print', 'print2', 'expr', 'printexpr', 'none', 'multi', 'compound', 'def', 'semicolon', 'expr_wild', 'expr_arr']
 # the richer statement grammar of the C01 program generator (C01, C18, C19, C20)
 MORE_KINDS = ['await_expr', 'unawaited_coro', 'augassign', 'for', 'while', 'with', 'try', 'decodef', 'class', 'literal_comment', 'triple', 'triple_unprefixed', 'triple_blank', 'triple_trailing_ws', 'triple_late_unprefixed',
               'import', 'comment', 'async_await', 'async_for', 'async_with']
@@ -61,6 +79,15 @@ class Stmt:
             self.lines = ['t(%d) + 1000' % k]
             self.is_expr = True
             self.val = str(k + 1000)
+        elif kind == 'expr_wild':
+            # values with an unusual __eq__: the verdict is about their repr, never about what they compare equal to
+            self.lines = ['Wild(t(%d))' % k]
+            self.is_expr = True
+            self.val = 'Wild(%d)' % k
+        elif kind == 'expr_arr':
+            self.lines = ['Arr([t(%d)])' % k]
+            self.is_expr = True
+            self.val = '[%d]' % k
         elif kind == 'printexpr':
             self.lines = ['pr(%d)' % k]
             self.is_expr = True
